@@ -4,6 +4,7 @@
 import Ipv8.C02.Tables
 import Ipv8.C02.OldPayloads
 import Ipv8.C02.WF
+import Ipv8.C02.Dataclass
 
 namespace Ipv8.C02
 open Ipv8
@@ -266,5 +267,118 @@ theorem packElems_rt {k : AKind} {as : List Atom} {b : Bytes}
     constructor
     · simp [e1, i1, Nat.add_mul]; omega
     · simp [decodeElems, ← e1, e2, i2]
+
+
+/-! ### tb_overlap records of SimilarityResponsePayload -/
+
+/-- one decoded `(hash, count)` record -/
+def tbDec (c : Bytes) : Option Val :=
+  if c.length = 24 then some (Val.tuple [.bytes (c.take 20), .nat (beDec (c.drop 20))]) else none
+
+def wfTb : Val → Bool
+  | .tuple [.bytes h, .nat _] => h.length == 20
+  | _ => false
+
+theorem splitTb_eq (b : Bytes) : Old.splitTb b = (Old.chunks 24 b).mapM tbDec := rfl
+
+theorem chunksAux_joinTb (l : List Val) (b : Bytes) (fuel : Nat) (hj : Old.joinTb l = some b)
+    (hw : ∀ e ∈ l, wfTb e = true) (hf : b.length ≤ fuel) :
+    (Old.chunksAux 24 fuel b).mapM tbDec = some l := by
+  induction l generalizing b fuel with
+  | nil =>
+    simp [Old.joinTb] at hj; subst hj
+    cases fuel <;> simp [Old.chunksAux]
+  | cons e es ih =>
+    have hwe := hw e (by simp)
+    match e, hwe with
+    | .tuple [.bytes h, .nat k], hwe =>
+      simp only [wfTb, beq_iff_eq] at hwe
+      simp only [Old.joinTb] at hj
+      split at hj
+      · rename_i hk
+        cases hr : Old.joinTb es with
+        | none => simp [hr] at hj
+        | some b' =>
+          simp [hr] at hj
+          subst hj
+          have hpad : fixedPad 20 h = h := by rw [← hwe]; exact fixedPad_self h
+          rw [hpad] at hf ⊢
+          have hlen : (h ++ beEnc 4 k).length = 24 := by simp [hwe, beEnc_length]
+          have hf' : 24 + b'.length ≤ fuel := by
+            have := hf
+            simp [hwe, beEnc_length] at this
+            omega
+          obtain ⟨f, rfl⟩ : ∃ f, fuel = f + 1 := ⟨fuel - 1, by omega⟩
+          have hne : (h ++ beEnc 4 k ++ b').isEmpty = false := by
+            cases hh : h with
+            | nil => simp [hh] at hwe
+            | cons _ _ => simp
+          have htake : (h ++ beEnc 4 k ++ b').take 24 = h ++ beEnc 4 k := List.take_left' hlen
+          have hdrop : (h ++ beEnc 4 k ++ b').drop 24 = b' := List.drop_left' hlen
+          have hrec := ih b' f hr (fun e he => hw e (by simp [he])) (by omega)
+          have hdec : tbDec (h ++ beEnc 4 k) = some (Val.tuple [.bytes h, .nat k]) := by
+            simp [tbDec, hlen, List.take_left' hwe, List.drop_left' hwe, beDec_beEnc 4 k hk]
+          have hxe : h ++ (beEnc 4 k ++ b') = h ++ beEnc 4 k ++ b' := by simp
+          rw [hxe]
+          generalize h ++ beEnc 4 k ++ b' = x at *
+          simp only [Old.chunksAux, hne, Bool.false_eq_true, if_false, htake, hdrop]
+          simp [hdec, hrec]
+      · cases hj
+
+theorem splitTb_joinTb (l : List Val) (b : Bytes) (hj : Old.joinTb l = some b) (hw : ∀ e ∈ l, wfTb e = true) :
+    Old.splitTb b = some l := by
+  rw [splitTb_eq]
+  simp only [Old.chunks]
+  exact chunksAux_joinTb l b b.length hj hw (Nat.le_refl _)
+
+
+/-! ### 20-byte preference lists -/
+
+def wfPref : Val → Bool
+  | .atom (.bytes h) => h.length == 20
+  | _ => false
+
+theorem chunksAux_joinBytes (l : List Val) (b : Bytes) (fuel : Nat) (hj : Old.joinBytes l = some b)
+    (hw : ∀ e ∈ l, wfPref e = true) (hf : b.length ≤ fuel) :
+    (Old.chunksAux 20 fuel b).map (fun c => Val.atom (.bytes c)) = l := by
+  induction l generalizing b fuel with
+  | nil =>
+    simp [Old.joinBytes] at hj; subst hj
+    cases fuel <;> simp [Old.chunksAux]
+  | cons e es ih =>
+    have hwe := hw e (by simp)
+    match e, hwe with
+    | .atom (.bytes h), hwe =>
+      simp only [wfPref, beq_iff_eq] at hwe
+      simp only [Old.joinBytes] at hj
+      cases hr : Old.joinBytes es with
+      | none => simp [hr] at hj
+      | some b' =>
+        simp [hr] at hj
+        subst hj
+        have hf' : 20 + b'.length ≤ fuel := by
+          have := hf
+          simp [hwe] at this
+          omega
+        obtain ⟨f, rfl⟩ : ∃ f, fuel = f + 1 := ⟨fuel - 1, by omega⟩
+        have hne : (h ++ b').isEmpty = false := by
+          cases hh : h with
+          | nil => simp [hh] at hwe
+          | cons _ _ => simp
+        have htake : (h ++ b').take 20 = h := List.take_left' hwe
+        have hdrop : (h ++ b').drop 20 = b' := List.drop_left' hwe
+        have hrec := ih b' f hr (fun e he => hw e (by simp [he])) (by omega)
+        generalize h ++ b' = x at *
+        simp only [Old.chunksAux, hne, Bool.false_eq_true, if_false, htake, hdrop]
+        simp [hrec]
+
+theorem ofList_toList : (vs : ValList) → ValList.ofList vs.toList = vs
+  | .nil => rfl
+  | .cons v vs => by simp [ValList.toList, ValList.ofList, ofList_toList vs]
+
+theorem toList_ofList (l : List Val) : (ValList.ofList l).toList = l := by
+  induction l with
+  | nil => rfl
+  | cons v vs ih => simp [ValList.toList, ValList.ofList, ih]
 
 end Ipv8.C02
